@@ -157,6 +157,18 @@ CLAIMED['C02'] = dict(
     note='Trusted: RI of C06 (plus: argument / alias edge indices are within the import / export lists they were taken from), event models of ComponentBuilder / NameMap / ComponentNameSection, M2S, z3. Counterexamples are rule-level; two fixed scripts (two versions of one package; a named core module) are inspected natively when the matching obligation fails.',
     design='DESIGN.md section 9.2 / C02')
 
+CLAIMED['C08'] = dict(
+    technique='symbolic execution of rustc MIR (M2S) of the conversion rules of TypeConverter with assume-guarantee per rule (the wasmparser arena is lazily instantiated from wasmparser\'s own declarations, every other converter is an uninterpreted contract); z3 decides agreement with the documented decoding; real components built from WIT are decoded natively as a cross-check',
+    text='First half of the property (decoding), rule level, bounded (collections <= 2/3, alias chains <= 3/4): find_owner returns the owner of the first type on the alias chain that has one; '
+         'entity / ty dispatch every kind to the converter of that kind on its own payload; component_val_type keeps primitives by name; component_func_type keeps parameter names, order, '
+         'converted types, result and the async flag, and reuses a cached id; component_instance_type / component_type keep entries in order with names and converted entities, set the '
+         'identifier only for `ns:pkg/..` names, call the ownership bookkeeping for exactly the type entries with their (referenced, created) ids; component_defined_type maps every constructor '
+         'to the constructor of the same meaning with members in order; resource keeps the name and makes a second id of a known resource an alias owned by the owning interface; use_or_own '
+         'records first ownership or a `use` of the owning interface with the original name on rename. By induction on type depth this fixes the decoded shape for any depth. NOT claimed: '
+         'that wasmparser\'s arena is well formed (validator), core module types, and the whole second half of the property (re-encoded component types in encoding.rs, substitution validity).',
+    note='Trusted: wasmparser struct/enum declarations read from the registry sources, contracts of the sibling converters, arena model of Types::add_*, M2S, z3. Counterexamples are rule-level; two WIT documents (a 3-hop `use` chain with a rename, all value constructors) are decoded by the real Package::from_bytes on every run.',
+    design='DESIGN.md section 9.2 / C08')
+
 NOT_APPLICABLE = {
  'C01': 'validity is defined by an external 60 kLoC validator over whole-pipeline output; neither it nor the encoder can be executed symbolically here (DESIGN.md section 4)',
  'C02': 'emission functions interleave graph reads with wasm_encoder builder calls and TypeEncoder recursion; deciding the encoded wiring needs a validated model of the builder index spaces that was not built; graph-side bookkeeping is covered by C06, order by C16 (DESIGN.md 9.6)',
